@@ -357,6 +357,19 @@ func genG12(repo string, w *Out) error {
 		}
 	}
 	w.DefBool("upgrade_clears_close", upg)
+	// order of the cases of the write switch: a response that must not have a body (isHeaderOnlySpec: 1xx, 204, 304,
+	// reply to HEAD — its Body may be the panicking placeholder of an upgrade) is written by writeHeaderOnlyResponse
+	// BEFORE any case that calls res.Write (event stream, chunk flushing, default)
+	ho, firstWrite := -1, -1
+	for i, t := range wr {
+		if t == "case isHeaderOnlySpec(res)" && ho < 0 {
+			ho = i
+		}
+		if strings.HasPrefix(t, "call res.Write(") && firstWrite < 0 {
+			firstWrite = i
+		}
+	}
+	w.DefBool("header_only_case_before_body_writers", ho >= 0 && firstWrite > ho)
 	if _, err := emit("skel_skipTraceWroteResponse", pc, "skipTraceWroteResponse"); err != nil {
 		return err
 	}
